@@ -137,7 +137,11 @@ def writers_rule(ctx, report, rule="WRITE"):
             if cls == U16:
                 vok = v.k == "param" and v.a[0] == 2
             else:
+                from rules.tables import peel_bytes
+                v = peel_bytes(v)
                 vok = v.k == "call" and v.a[0].name == "octets" and v.a[1] and strip(v.a[1][0]).k == "param" and strip(v.a[1][0]).a[0] == 2
+                # the address itself: alloy-rlp encodes Ipv4Addr/Ipv6Addr as the byte string of its octets (the class computed from the type says so)
+                vok = vok or (v.k == "param" and v.a[0] == 2 and ("Ipv4Addr" in c["targs"][1] or "Ipv6Addr" in c["targs"][1]))
             ok = c["key"] == key and got == cls and vok and strip(c["args"][0]).k == "param"
             why = "adds key %r as %s (value %s)" % (c["key"], rlpclass.fmt(got), short(v, 80))
         report.check(rule, "Builder::" + f.name, ok, "Builder::%s stores its argument under %r as %s" % (f.name, key.decode(), rlpclass.fmt(cls)),
@@ -276,6 +280,26 @@ def readers_rule(ctx, report, rule="READ"):
                     bexp = strip(body[0])
                     good_body = bexp.k == "call" and bexp.a[0].name == "decode" and (bexp.a[0].trait or "").endswith("Decodable") and any(x.k == "closure-arg" for x in bexp.walk())
                 ok = g.k == "call" and g.a[0].target() == "Enr::<K>::get_raw_rlp" and strip(g.a[1][0]).k == "param" and strip(g.a[1][1]).k == "param" and good_body
+        if not ok:
+            # explicit form: `let mut raw = self.get_raw_rlp(key)?; Some(T::decode(&mut raw))`
+            somes, bad = 0, 0
+            for bb, idx, e, node in rets:
+                es = strip(e)
+                if (es.k == "agg" and es.a[0].endswith("Option::None")) or (es.k == "call" and es.a[0].name == "from_residual"):
+                    continue
+                good = False
+                if es.k == "agg" and es.a[0].endswith("Option::Some"):
+                    v = strip(es.a[1]["0"])
+                    if v.k == "call" and v.a[0].name == "decode" and (v.a[0].trait or "").endswith("Decodable") and v.a[1]:
+                        from kernel import unmut
+                        src = ok_payload(unmut(v.a[1][0]))
+                        g = strip(src) if src is not None else None
+                        good = g is not None and g.k == "call" and g.a[0].target() == "Enr::<K>::get_raw_rlp" and strip(g.a[1][0]).k == "param" and strip(g.a[1][1]).k == "param"
+                if good:
+                    somes += 1
+                else:
+                    bad += 1
+            ok = somes >= 1 and bad == 0
         report.check(rule, "get_decodable", ok, "get_decodable::<T>(key) = get_raw_rlp(key).map(T::decode)", "get_decodable is not T::decode of the raw value of the requested key", fn=f.path, sp=f.span, config=cfg)
     # ports: the Some payload is the doubly-unwrapped get_decodable::<u16>(KEY), everything else is None
     for path, key in PORT_GETTERS.items():
@@ -366,25 +390,54 @@ def readers_rule(ctx, report, rule="READ"):
         if f is None:
             continue
         an = ctx.an(f)
-        names = set()
-        for bb, idx, e, node in ret_exprs(an):
-            for c in e.walk():
-                if c.k == "call" and c.a[0].name == "is_some" and c.a[1]:
-                    inner = strip(c.a[1][0])
-                    if inner.k == "call":
-                        names.add(inner.a[0].name)
-        # also the first operand of || lives in a switch condition
-        for n in an.cfg.nodes:
-            info = an.switch_info(n)
-            if info:
-                for c in info[0].walk():
-                    if c.k == "call" and c.a[0].name == "is_some" and c.a[1]:
-                        inner = strip(c.a[1][0])
-                        if inner.k == "call":
-                            names.add(inner.a[0].name)
-        consts = [strip(e).a[0] for _, _, e, _ in ret_exprs(an) if strip(e).k == "const"]
-        ok = names == {a, b} and all(c == 1 for c in consts)
-        report.check(rule, f.name, ok, "%s() = %s().is_some() || %s().is_some()" % (f.name, a, b), "%s() consults %s (expected %s and %s)" % (f.name, sorted(names), a, b), fn=f.path, sp=f.span, config=cfg)
+        # truth table: for each of the four presence combinations of the two socket getters, cut the paths that
+        # contradict it and evaluate every return that is still reachable; all must equal A || B
+        problems = []
+
+        def which(e):
+            e = strip(e)
+            if e.k == "call" and e.a[0].is_local_target() and e.a[0].name in (a, b) and e.a[1] and strip(e.a[1][0]).k == "param":
+                return e.a[0].name
+            return None
+
+        for A in (True, False):
+            for B in (True, False):
+                val = {a: A, b: B}
+
+                def pred(cond, names, _val=val):
+                    c = strip(cond)
+                    neg = False
+                    while c.k == "unop" and c.a[0] == "Not":
+                        neg, c = not neg, strip(c.a[1])
+                    if c.k == "discr" and names:
+                        w = which(c.a[0])
+                        if w is not None:
+                            return {"Some"} if _val[w] else {"None"}
+                    if c.k == "call" and c.a[0].name in ("is_some", "is_none") and c.a[1]:
+                        w = which(c.a[1][0])
+                        if w is not None:
+                            truth = _val[w] if c.a[0].name == "is_some" else not _val[w]
+                            return _bool_keep(truth != neg)
+                    return None
+                van = assume(an, pred)
+                for bb, idx, e, node in ret_exprs(van):
+                    es = strip(e)
+                    neg = False
+                    while es.k == "unop" and es.a[0] == "Not":
+                        neg, es = not neg, strip(es.a[1])
+                    got = None
+                    if es.k == "const" and isinstance(es.a[0], int):
+                        got = bool(es.a[0])
+                    elif es.k == "call" and es.a[0].name in ("is_some", "is_none") and es.a[1] and which(es.a[1][0]) is not None:
+                        got = val[which(es.a[1][0])] if es.a[0].name == "is_some" else not val[which(es.a[1][0])]
+                    if got is not None and neg:
+                        got = not got
+                    if got is None:
+                        problems.append("with %s()=%s, %s()=%s it returns %s" % (a, "Some" if A else "None", b, "Some" if B else "None", short(es, 80)))
+                    elif got != (A or B):
+                        problems.append("with %s()=%s, %s()=%s it returns %s" % (a, "Some" if A else "None", b, "Some" if B else "None", got))
+        problems = sorted(set(problems))
+        report.check(rule, f.name, not problems, "%s() = %s().is_some() || %s().is_some()" % (f.name, a, b), "%s() is not %s().is_some() || %s().is_some(): %s" % (f.name, a, b, "; ".join(problems[:4])), fn=f.path, sp=f.span, config=cfg)
 
 
 def none_only_when_missing(ctx, report, rule, f, ipg, portg):
@@ -433,10 +486,21 @@ def ip_getter(ctx, f, key, n, tyname):
         if es.k == "call" and es.a[0].name == "map" and len(es.a[1]) == 2:
             fnarg = strip(es.a[1][1])
             inner = strip(es.a[1][0])
+            if inner.k == "phi":
+                # `match .. { Some(Ok(b)) => try_from(b).ok(), _ => None }`: the None alternatives stay None under map
+                from kernel import is_failure_value
+                alts = [a for a in inner.a[0] if not is_failure_value(a)]
+                if len(alts) == 1:
+                    inner = strip(alts[0])
             if fnarg.k == "const" and isinstance(fnarg.a[0], tuple) and tyname in fnarg.a[0][1] and fnarg.a[0][1].endswith("::from"):
                 if inner.k == "call" and inner.a[0].name == "ok" and inner.a[1]:
                     tf = strip(inner.a[1][0])
-                    if tf.k == "call" and tf.a[0].name == "try_from" and ("[u8; %d]" % n) in tf.a[0].full and any(c.k == "call" and c.a[0].name == "get_decodable" for c in tf.walk()):
+                    arr = "[u8; %d]" % n
+                    # the array length is fixed by the conversion itself, or (generic helper spliced in) by the type the result is mapped from
+                    sized = arr in tf.a[0].full if tf.k == "call" else False
+                    if tf.k == "call" and not sized and "[u8; " in tf.a[0].full and ("Option::<%s>::map" % arr) in es.a[0].full:
+                        sized = True
+                    if tf.k == "call" and tf.a[0].name == "try_from" and sized and any(c.k == "call" and c.a[0].name == "get_decodable" for c in tf.walk()):
                         somes += 1
                         continue
             return False, "returns %s" % short(es, 120)
